@@ -165,3 +165,29 @@ Proof.
     + rewrite (set_params_keeps_mhc _ _ _ _ _ _ Ea). exact Hc.
     + inversion Ea; subst. exact Hc.
 Qed.
+
+(* ---- ImpliesMaximalPrevotes (LIP-0058): the header implies the maximal number of prevotes iff it casts prevotes at all
+   (maxHeightGenerated < height) and the block of THIS chain at height maxHeightGenerated — if it is still in the window — was
+   generated by the same validator (the generator has been on this chain since its previous block). ---- *)
+Theorem implies_max_prevotes_spec : forall v b tip, hts (v_infos v) tip -> v_infos v <> [] -> h_height b = tip ->
+  exists r, implies_max_prevotes v b = Ok r /\
+    (r = true <-> h_mhg b < h_height b /\ forall e, In e (v_infos v) -> i_height e = h_mhg b -> i_gen e = h_gen b).
+Proof.
+  intros v b tip Hh Hne Hb. unfold implies_max_prevotes.
+  destruct (v_infos v) as [|nw tl] eqn:E; [contradiction|].
+  assert (Hnw : i_height nw = tip) by (specialize (Hh 0%nat nw eq_refl); lia).
+  rewrite Hb, Hnw, N.eqb_refl. cbn [negb].
+  destruct (tip <=? h_mhg b) eqn:E2.
+  - exists false. split; [reflexivity|]. split; [discriminate|]. intros [H _]. lia.
+  - destruct (nth_error (nw :: tl) (N.to_nat (tip - h_mhg b))) as [bi|] eqn:En.
+    + exists (i_gen bi =? h_gen b). split; [reflexivity|].
+      pose proof (Hh _ _ En) as Hbi. assert (Hbh : i_height bi = h_mhg b) by lia.
+      split.
+      * intros Hg. apply N.eqb_eq in Hg. split; [lia|]. intros e He Heh.
+        apply In_nth_error in He. destruct He as [j Hj]. pose proof (Hh _ _ Hj) as Hej.
+        assert (j = N.to_nat (tip - h_mhg b)) by lia. subst j. rewrite En in Hj. inversion Hj; subst. exact Hg.
+      * intros [_ Hall]. apply N.eqb_eq. apply Hall; [eapply nth_error_In; exact En|exact Hbh].
+    + exists true. split; [reflexivity|]. split; [|reflexivity]. intros _. split; [lia|].
+      intros e He Heh. apply In_nth_error in He. destruct He as [j Hj]. pose proof (Hh _ _ Hj) as Hej.
+      assert (j = N.to_nat (tip - h_mhg b)) by lia. subst j. rewrite En in Hj. discriminate.
+Qed.
